@@ -114,6 +114,21 @@ def run():
                     jobs.append({"argv": [f, g, "--no-status", "--no-color"], "from": f, "to": g, "cfg": cfg,
                                  "meta": {"format": fmt, "doc": di, "corruption": name, "position": pos,
                                           "content": bad.decode("latin-1")[:400]}})
+    # both files malformed at once - the same bytes twice (a copy, or the very same path) - in every output mode: nothing
+    # about the pair (e.g. "identical, so there is nothing to report") may come before parsing
+    n_single = len(jobs)
+    for k in range(0, n_single, 14):
+        j = jobs[k]
+        bad_path = j["from"] if j["meta"]["position"] == "from" else j["to"]
+        fmt = j["meta"]["format"]
+        with open(bad_path, "rb") as fh:
+            twin = mats.file(fh.read(), _cli.EXT[fmt], "twin")
+        for second, how in ((twin, "copy"), (bad_path, "same-path")):
+            for mode in ([], ["-e"], ["-d"]):
+                cfg = _cli.base_cfg(fromExt=fmt, toExt=fmt, fromValid=[], toValid=[])
+                jobs.append({"argv": [bad_path, second, "--no-status", "--no-color"] + mode, "from": bad_path, "to": second, "cfg": cfg,
+                             "meta": {"format": fmt, "doc": j["meta"]["doc"], "corruption": j["meta"]["corruption"] + " x2 (" + how + ")" + " ".join(mode),
+                                      "position": "both", "content": j["meta"]["content"]}})
     records = _cli.execute(jobs)
     errs, st = _cli.validate(records)
     chk.add_trace_stats(st, "CliTrace", len(records))
